@@ -12,6 +12,14 @@
 //	    session is returned as trace lines for StepsTrace.tla.
 //
 // A call is {"kind":"step"|"signal","step","run","sig","input","beh"} as in Steps.tla.
+// "variants":[v..] (one per call, set by the orchestrator round-robin per call class so that every
+// concrete form of every class is exercised) selects the concrete raw input / handler output.
+//
+// The steps in mapSteps (StepsMC: MapSteps) have a MAP-BASED input scope and signal data scope
+// (schema.NewObjectSchema, handler typed map[string]any).  The abstract "unserialized value" of
+// such a call is bound by an INDEPENDENT copy of the scope: the handler's argument is of class
+// Native(input) iff it is reflect.DeepEqual to what that copy's Unserialize returns for the same
+// raw input.
 // For every session the property's own invariants are evaluated directly on the real
 // observations (judge); under replay the per-goroutine event sequences, ledger, outcomes and
 // initializer counts are also compared with the specification's (differences the property
@@ -78,6 +86,8 @@ type caseT struct {
 	Ic       map[string]map[string]int `json:"ic"`
 	Racy     bool                      `json:"racy"`
 	NoInit   []string                  `json:"noinit"`
+	MapSteps []string                  `json:"mapsteps"`
+	Variants []int                     `json:"variants"`
 	Seed     int64                     `json:"seed"`
 	Sessions int                       `json:"sessions"`
 	NP       int                       `json:"np"`
@@ -101,6 +111,8 @@ type resT struct {
 	Stuck      string           `json:"stuck,omitempty"`
 	BindError  string           `json:"bind_error,omitempty"`
 	Keys       []string         `json:"keys,omitempty"`
+	Forms      []string         `json:"forms,omitempty"`       // concrete raw-input forms exercised
+	FormTables map[string]int   `json:"form_tables,omitempty"` // "<scope>/<class>" -> number of concrete forms
 	nviol      int              // violations found, including those beyond the reporting cap
 }
 
@@ -113,6 +125,14 @@ const (
 // tests do): its step data is the nil interface.  Steps.tla: NoInitSteps.
 var stepIDs = []string{"s1", "s2", "s0"}
 var noInit = map[string]bool{"s0": true}
+
+// s2 has a map-based input scope and a map-based signal data scope.  StepsMC: MapSteps.
+var mapSteps = map[string]bool{"s2": true}
+
+// the accepted raw input classes (Steps.tla: ValidInputs); vd and vl exist for map-based scopes only
+var validIn = map[string]bool{"va": true, "vb": true, "vd": true, "vl": true}
+var structClasses = []string{"va", "vb"}
+var mapClasses = []string{"va", "vb", "vd", "vl"}
 
 // ---------------------------------------------------------------------------- the plugin under test
 
@@ -159,8 +179,8 @@ func outputs() map[string]*schema.StepOutputSchema {
 	}
 }
 
-var names = map[string]string{"va": "alpha", "vb": "bravo"}
-var natives = map[string]string{"va": "nva", "vb": "nvb"}
+var names = map[string]string{"va": "alpha", "vb": "bravo", "vd": "delta", "vl": "lima"}
+var natives = map[string]string{"va": "nva", "vb": "nvb", "vd": "nvd", "vl": "nvl"}
 
 // rawInput concretises an abstract raw input class; variant selects one of several concrete forms.
 func rawInput(field, class string, variant int) any {
@@ -171,7 +191,14 @@ func rawInput(field, class string, variant int) any {
 		}
 		return map[any]any{field: names[class]} // what CBOR hands over
 	default:
-		switch variant % 6 {
+		switch variant % nStructInv {
+		case 6:
+			// a value that already has the reflected type of the scope: the schema's Unserialize takes
+			// maps only ("Must be a map to convert to object")
+			if field == "msg" {
+				return sigIn{Msg: "alpha"}
+			}
+			return stepIn{Name: "alpha"}
 		case 0:
 			return map[string]any{field: "x"} // shorter than the declared minimum
 		case 1:
@@ -186,6 +213,169 @@ func rawInput(field, class string, variant int) any {
 			return map[any]any{field: nil}
 		}
 	}
+}
+
+const nStructInv = 7
+
+// ---------------------------------------------------------------------------- map-based scopes
+
+func optProp(t schema.Type, def *string) *schema.PropertySchema {
+	return schema.NewPropertySchema(t, nil, false, nil, nil, nil, def, nil)
+}
+
+// mapScope builds a fresh scope whose root object is NOT struct-mapped: its unserialized form is a
+// map[string]any.  "count" has a declared default; count/size/ratio/verbose accept lenient forms.
+func mapScope(id, field string) *schema.ScopeSchema {
+	return schema.NewScopeSchema(schema.NewObjectSchema(id, map[string]*schema.PropertySchema{
+		field:     strProp(2, true),
+		"note":    strProp(0, false),
+		"count":   optProp(schema.NewIntSchema(schema.IntPointer(0), schema.IntPointer(10), nil), schema.PointerTo("3")),
+		"size":    optProp(schema.NewIntSchema(nil, nil, nil), nil),
+		"ratio":   optProp(schema.NewFloatSchema(nil, nil, nil), nil),
+		"verbose": optProp(schema.NewBoolSchema(), nil),
+	}))
+}
+func mapInScope() *schema.ScopeSchema  { return mapScope("input", "name") }
+func mapSigScope() *schema.ScopeSchema { return mapScope("sigdata", "msg") }
+
+func refScope(field string) *schema.ScopeSchema {
+	if field == "msg" {
+		return mapSigScope()
+	}
+	return mapInScope()
+}
+
+// mapForm is one concrete raw input of a map-based scope.  norm is the unserialized value the
+// specification's reading of the schema gives (defaults filled in, int64 / float64 / bool): it is
+// checked against an independent Unserialize in bindCheck; nil = the schema rejects the input.
+type mapForm struct {
+	name string
+	raw  func(f, n string) any
+	norm func(f, n string) map[string]any
+}
+
+type msa = map[string]any
+type maa = map[any]any
+
+var mapForms = map[string][]mapForm{
+	// normal representation, nothing omitted that has a default
+	"v": {
+		{"normal", func(f, n string) any { return msa{f: n, "count": int64(4)} },
+			func(f, n string) msa { return msa{f: n, "count": int64(4)} }},
+		{"normal-anymap", func(f, n string) any { return maa{f: n, "count": int64(4), "note": "x"} },
+			func(f, n string) msa { return msa{f: n, "count": int64(4), "note": "x"} }},
+		{"normal-full", func(f, n string) any {
+			return msa{f: n, "count": int64(0), "size": int64(-2), "ratio": 1.5, "verbose": false}
+		}, func(f, n string) msa {
+			return msa{f: n, "count": int64(0), "size": int64(-2), "ratio": 1.5, "verbose": false}
+		}},
+	},
+	// (a) the property with the declared default is omitted
+	"vd": {
+		{"default-omitted", func(f, n string) any { return msa{f: n} },
+			func(f, n string) msa { return msa{f: n, "count": int64(3)} }},
+		{"default-omitted-anymap", func(f, n string) any { return maa{f: n} },
+			func(f, n string) msa { return msa{f: n, "count": int64(3)} }},
+		{"default-omitted-others-set", func(f, n string) any { return msa{f: n, "ratio": 2.5, "verbose": true, "note": ""} },
+			func(f, n string) msa { return msa{f: n, "count": int64(3), "ratio": 2.5, "verbose": true, "note": ""} }},
+	},
+	// (b) values the schema accepts by lenient conversion
+	"vl": {
+		{"int-as-int", func(f, n string) any { return msa{f: n, "count": 5} },
+			func(f, n string) msa { return msa{f: n, "count": int64(5)} }},
+		{"int-as-uint64", func(f, n string) any { return msa{f: n, "count": uint64(7)} },
+			func(f, n string) msa { return msa{f: n, "count": int64(7)} }},
+		{"int-as-float", func(f, n string) any { return msa{f: n, "count": float64(6)} },
+			func(f, n string) msa { return msa{f: n, "count": int64(6)} }},
+		{"int-as-string", func(f, n string) any { return msa{f: n, "count": "5"} },
+			func(f, n string) msa { return msa{f: n, "count": int64(5)} }},
+		{"bool-as-string", func(f, n string) any { return msa{f: n, "count": int64(1), "verbose": "yes"} },
+			func(f, n string) msa { return msa{f: n, "count": int64(1), "verbose": true} }},
+		{"float-as-int64", func(f, n string) any { return msa{f: n, "count": int64(1), "ratio": int64(2)} },
+			func(f, n string) msa { return msa{f: n, "count": int64(1), "ratio": float64(2)} }},
+		{"float-as-string", func(f, n string) any { return msa{f: n, "count": int64(1), "ratio": "2.5"} },
+			func(f, n string) msa { return msa{f: n, "count": int64(1), "ratio": 2.5} }},
+		{"small-ints", func(f, n string) any { return msa{f: n, "count": uint8(9), "size": int32(-4), "verbose": 1} },
+			func(f, n string) msa { return msa{f: n, "count": int64(9), "size": int64(-4), "verbose": true} }},
+		{"all-lenient-default-omitted", func(f, n string) any { return msa{f: n, "size": "12", "ratio": 3, "verbose": "off"} },
+			func(f, n string) msa { return msa{f: n, "count": int64(3), "size": int64(12), "ratio": float64(3), "verbose": false} }},
+		{"all-lenient-anymap", func(f, n string) any { return maa{f: n, "count": "10", "size": uint64(8), "ratio": int64(2), "verbose": "yes"} },
+			func(f, n string) msa { return msa{f: n, "count": int64(10), "size": int64(8), "ratio": float64(2), "verbose": true} }},
+	},
+	// (c) rejected by the schema
+	"inv": {
+		{"too-short", func(f, n string) any { return msa{f: "x"} }, nil},
+		{"required-missing", func(f, n string) any { return msa{"note": "no required field"} }, nil},
+		{"undeclared-key", func(f, n string) any { return msa{f: "alpha", "bogus": "undeclared"} }, nil},
+		{"nil", func(f, n string) any { return nil }, nil},
+		{"not-a-map", func(f, n string) any { return 42 }, nil},
+		{"nil-required", func(f, n string) any { return maa{f: nil} }, nil},
+		{"int-out-of-range", func(f, n string) any { return msa{f: "alpha", "count": int64(11)} }, nil},
+		{"int-out-of-range-lenient", func(f, n string) any { return msa{f: "alpha", "count": "-1"} }, nil},
+		{"int-not-a-number", func(f, n string) any { return msa{f: "alpha", "count": "x"} }, nil},
+		{"int-fraction", func(f, n string) any { return msa{f: "alpha", "count": 2.5} }, nil},
+		{"bool-unknown-word", func(f, n string) any { return msa{f: "alpha", "verbose": "maybe"} }, nil},
+		{"float-not-a-number", func(f, n string) any { return msa{f: "alpha", "ratio": "fast"} }, nil},
+		{"empty", func(f, n string) any { return msa{} }, nil},
+		{"string", func(f, n string) any { return "alpha" }, nil},
+		{"non-string-key", func(f, n string) any { return maa{f: "alpha", 7: "x"} }, nil},
+		{"wrong-type-for-string", func(f, n string) any { return msa{f: msa{"a": "b"}} }, nil},
+	},
+}
+
+func formsOf(class string) []mapForm {
+	if class == "va" || class == "vb" {
+		return mapForms["v"]
+	}
+	if f, ok := mapForms[class]; ok {
+		return f
+	}
+	return mapForms["inv"]
+}
+
+func formOf(class string, variant int) mapForm {
+	f := formsOf(class)
+	if variant < 0 {
+		variant = -variant
+	}
+	return f[variant%len(f)]
+}
+
+// rawInputMap concretises an abstract raw input class for a map-based scope (fresh value each time).
+func rawInputMap(field, class string, variant int) any {
+	return formOf(class, variant).raw(field, names[class])
+}
+
+// mapArgClass binds the abstract unserialized value: got is of class Native(class) iff it equals what
+// an independent copy of the scope unserializes the same raw input to.
+func mapArgClass(field, class string, variant int, got map[string]any) (cls, wantText string) {
+	if !validIn[class] {
+		return "other", "(input rejected by the schema)"
+	}
+	var want any
+	var err error
+	if pi := sup.Guard(func() { want, err = refScope(field).Unserialize(rawInputMap(field, class, variant)) }); pi != nil {
+		return "other", "reference Unserialize panicked: " + pi.Msg
+	}
+	if err != nil {
+		return "other", "reference Unserialize: " + err.Error()
+	}
+	if reflect.DeepEqual(any(got), want) {
+		return natives[class], ""
+	}
+	return "other", fmt.Sprintf("%#v", want)
+}
+
+// formTables gives the number of concrete raw-input forms per "<scope>/<class>" (the same for steps and signals)
+func formTables() map[string]int {
+	t := map[string]int{"struct/inv": nStructInv}
+	for _, c := range structClasses {
+		t["struct/"+c] = 2
+	}
+	for _, c := range append(append([]string{}, mapClasses...), "inv") {
+		t["map/"+c] = len(formsOf(c))
+	}
+	return t
 }
 
 func nativeClass(name, note string) string {
@@ -270,6 +460,8 @@ type event struct {
 	dataPtr *sdata
 	key     string
 	hstep   string
+	argText string // what the handler of a map-based step got / should have got, for reports
+	wantArg string
 }
 
 func (e *event) line() map[string]any {
@@ -286,6 +478,7 @@ type proc struct {
 	done    chan struct{}
 	begun   bool
 	rng     *rand.Rand
+	form    string // the concrete raw input form used (set by the call's goroutine before it returns)
 }
 
 type procKey struct{}
@@ -313,10 +506,14 @@ func goid() int64 {
 	return id
 }
 
-func newSession(calls []callT, gated bool, seed int64, variant int) *session {
+func newSession(calls []callT, gated bool, seed int64, variant int, variants []int) *session {
 	s := &session{byGoid: map[int64]*proc{}, gated: gated, free: make(chan struct{}), arriv: make(chan *event, 16*len(calls)+16)}
 	for i, c := range calls {
-		s.procs = append(s.procs, &proc{id: i + 1, call: c, variant: variant + i, gate: make(chan struct{}, 1),
+		v := variant + i
+		if len(variants) == len(calls) && variants[i] >= 0 {
+			v = variants[i]
+		}
+		s.procs = append(s.procs, &proc{id: i + 1, call: c, variant: v, gate: make(chan struct{}, 1),
 			done: make(chan struct{}), rng: rand.New(rand.NewSource(seed*7919 + int64(i)))})
 	}
 	var steps []schema.CallableStep
@@ -328,6 +525,14 @@ func newSession(calls []callT, gated bool, seed int64, variant int) *session {
 }
 
 func (s *session) buildStep(id string) schema.CallableStep {
+	if mapSteps[id] {
+		sig := schema.NewCallableSignal[*sdata, map[string]any](sigID, mapSigScope(), nil,
+			func(ctx context.Context, d *sdata, in map[string]any) { s.mapSignalHandler(ctx, id, d, in) })
+		return schema.NewCallableStepWithSignals[*sdata, map[string]any](id, mapInScope(), outputs(),
+			map[string]schema.CallableSignal{sigID: sig}, nil, nil,
+			func() *sdata { return s.initializer(id) },
+			func(ctx context.Context, d *sdata, in map[string]any) (string, any) { return s.mapStepHandler(ctx, id, d, in) })
+	}
 	if noInit[id] {
 		sig := schema.NewCallableSignal[any, sigIn](sigID, sigScope(), nil,
 			func(ctx context.Context, d any, in sigIn) { s.signalHandler(ctx, id, d, in) })
@@ -451,6 +656,57 @@ func (s *session) signalHandler(ctx context.Context, step string, d any, in sigI
 	s.record(&event{Ev: "hret", P: p.id})
 }
 
+// handlers of the map-based step: the argument is classified against the independent reference
+func (s *session) mapStepHandler(ctx context.Context, step string, d any, in map[string]any) (string, any) {
+	p := s.procOf(ctx)
+	if p == nil {
+		s.anomaly("step handler called without attributable call")
+		return "success", stepOut{Message: "?"}
+	}
+	cls, want := mapArgClass("name", p.call.Input, p.variant, in)
+	s.arrive(p, &event{Ev: "invoke", P: p.id, Kind: "step", Arg: cls, Data: creator(d),
+		dataPtr: asData(d), key: step + "/" + p.call.Run, hstep: step, argText: fmt.Sprintf("%#v", in), wantArg: want})
+	s.record(&event{Ev: "hret", P: p.id})
+	name, _ := in["name"].(string)
+	return handlerOutput(p.call.Beh, name, p.variant)
+}
+
+func (s *session) mapSignalHandler(ctx context.Context, step string, d any, in map[string]any) {
+	p := s.procOf(ctx)
+	if p == nil {
+		s.anomaly("signal handler called without attributable call")
+		return
+	}
+	cls, want := mapArgClass("msg", p.call.Input, p.variant, in)
+	s.arrive(p, &event{Ev: "invoke", P: p.id, Kind: "signal", Arg: cls, Data: creator(d),
+		dataPtr: asData(d), key: step + "/" + p.call.Run, hstep: step, argText: fmt.Sprintf("%#v", in), wantArg: want})
+	s.record(&event{Ev: "hret", P: p.id})
+}
+
+// rawFor concretises p's raw input (a fresh value on every call) and names the concrete form.
+func rawFor(p *proc) (raw any, form string) {
+	field := "name"
+	if p.call.Kind == "signal" {
+		field = "msg"
+	}
+	if mapSteps[p.call.Step] {
+		f := formOf(p.call.Input, p.variant)
+		cls := p.call.Input
+		if !validIn[cls] {
+			cls = "inv"
+		}
+		return f.raw(field, names[p.call.Input]), "map/" + p.call.Kind + "/" + cls + "/" + f.name
+	}
+	v := p.variant
+	if v < 0 {
+		v = -v
+	}
+	if validIn[p.call.Input] {
+		return rawInput(field, p.call.Input, v), fmt.Sprintf("struct/%s/%s/%d", p.call.Kind, p.call.Input, v%2)
+	}
+	return rawInput(field, p.call.Input, v), fmt.Sprintf("struct/%s/inv/%d", p.call.Kind, v%nStructInv)
+}
+
 var sdkErrNames = map[string]string{
 	"BadArgumentError": "badarg", "NoSuchStepError": "nosuchstep",
 	"InvalidInputError": "invalidinput", "InvalidOutputError": "invalidoutput",
@@ -514,11 +770,13 @@ func (s *session) runCall(p *proc) {
 	var outID string
 	var outData any
 	var err error
+	raw, form := rawFor(p)
+	p.form = form
 	pi := sup.Guard(func() {
 		if p.call.Kind == "step" {
-			outID, outData, err = s.schema.CallStep(ctx, p.call.Run, p.call.Step, rawInput("name", p.call.Input, p.variant))
+			outID, outData, err = s.schema.CallStep(ctx, p.call.Run, p.call.Step, raw)
 		} else {
-			err = s.schema.CallSignal(ctx, p.call.Run, p.call.Step, p.call.Sig, rawInput("msg", p.call.Input, p.variant))
+			err = s.schema.CallSignal(ctx, p.call.Run, p.call.Step, p.call.Sig, raw)
 		}
 	})
 	if pi != nil {
@@ -552,7 +810,7 @@ func situation(c callT) string {
 		return "unknown_step"
 	case c.Kind == "signal" && c.Sig != sigID:
 		return "unknown_signal"
-	case c.Input != "va" && c.Input != "vb":
+	case !validIn[c.Input]:
 		return "rejected_input"
 	case c.Kind == "signal":
 		return "ok"
@@ -594,11 +852,18 @@ func (r *resT) miss(drift bool, c callT, class string, extra map[string]any, det
 		return
 	}
 	sig := map[string]any{"op": opName(c), "class": class, "case": situation(c)}
+	if mapSteps[c.Step] && inputClasses[class] {
+		sig["scope"] = "map" // the step's input scope is map-based
+	}
 	for k, v := range extra {
 		sig[k] = v
 	}
 	r.Mismatches = append(r.Mismatches, mismatch{Sig: sig, Detail: detail, Drift: drift})
 }
+
+// the verdicts that concern the treatment of the raw input
+var inputClasses = map[string]bool{"handler_skipped": true, "handler_on_invalid": true, "wrong_argument": true,
+	"error_on_valid": true}
 
 func logLines(log []*event) []map[string]any {
 	out := make([]map[string]any, 0, len(log))
@@ -631,7 +896,10 @@ func judge(s *session, r *resT) int {
 		}
 	}
 	det := func(p *proc, more map[string]any) map[string]any {
-		d := map[string]any{"p": p.id, "call": p.call, "variant": p.variant}
+		d := map[string]any{"p": p.id, "call": p.call, "variant": p.variant, "form": p.form}
+		if mapSteps[p.call.Step] {
+			d["raw"] = fmt.Sprintf("%#v", func() any { r, _ := rawFor(p); return r }())
+		}
 		for k, v := range more {
 			d[k] = v
 		}
@@ -650,6 +918,9 @@ func judge(s *session, r *resT) int {
 			continue
 		}
 		r.Evals++
+		if p.form != "" {
+			r.Forms = append(r.Forms, p.form)
+		}
 		c := p.call
 		sit := situation(c)
 		ret := rets[p.id]
@@ -693,7 +964,8 @@ func judge(s *session, r *resT) int {
 			r.miss(!isStep, c, "handler_on_invalid", nil, det(p, map[string]any{"arg": inv[0].Arg}))
 		}
 		if valid && len(inv) == 1 && inv[0].Arg != natives[c.Input] {
-			r.miss(false, c, "wrong_argument", nil, det(p, map[string]any{"arg": inv[0].Arg, "want": natives[c.Input]}))
+			r.miss(false, c, "wrong_argument", nil, det(p, map[string]any{"arg": inv[0].Arg, "want": natives[c.Input],
+				"handler_got": inv[0].argText, "unserialized_value": inv[0].wantArg}))
 		}
 		// outcome
 		od := map[string]any{"returned": ret.Class, "type": ret.etype, "err": ret.errText, "out": ret.Out, "ser": ret.Ser}
@@ -809,12 +1081,21 @@ func runReplay(c caseT, r *resT) {
 			r.BindError = "step " + cl.Step + " has no initializer in the harness but one in the specification"
 			return
 		}
+		if mapSteps[cl.Step] != contains(c.MapSteps, cl.Step) {
+			r.BindError = "step " + cl.Step + ": specification's MapSteps " + strings.Join(c.MapSteps, ",") + " differ from the harness's"
+			return
+		}
+		if (cl.Input == "vd" || cl.Input == "vl") && !mapSteps[cl.Step] {
+			r.BindError = "input class " + cl.Input + " is bound for map-based scopes only; call on step " + cl.Step
+			return
+		}
 	}
+	r.FormTables = formTables()
 	variant := 0
 	for _, h := range c.Hist {
 		variant = variant*3 + h.P
 	}
-	s := newSession(c.Calls, true, 1, variant%12)
+	s := newSession(c.Calls, true, 1, variant%12, c.Variants)
 	for _, p := range s.procs {
 		go s.runCall(p)
 	}
@@ -1058,6 +1339,9 @@ func randomCall(rng *rand.Rand, runs int) callT {
 	default:
 		c.Input = "va"
 	}
+	if mapSteps[c.Step] && rng.Intn(2) == 0 {
+		c.Input = []string{"vd", "vl", "vl"}[rng.Intn(3)]
+	}
 	if rng.Intn(100) < 45 {
 		c.Kind = "step"
 		c.Beh = []string{"ok", "ok", "ok", "ok2", "undeclared", "baddata"}[rng.Intn(6)]
@@ -1093,7 +1377,13 @@ func runRandom(c caseT, r *resT) {
 				}
 			}
 		}
-		s := newSession(calls, false, c.Seed*100003+int64(k), rng.Intn(12))
+		for i := range calls {
+			// the classes vd / vl are bound for map-based scopes only
+			if (calls[i].Input == "vd" || calls[i].Input == "vl") && !mapSteps[calls[i].Step] {
+				calls[i].Input = "va"
+			}
+		}
+		s := newSession(calls, false, c.Seed*100003+int64(k), rng.Intn(1<<16), nil)
 		for _, p := range s.procs {
 			go s.runCall(p)
 		}
@@ -1126,13 +1416,18 @@ func runRandom(c caseT, r *resT) {
 		r.Trace = append(r.Trace, map[string]any{"ev": "reset", "calls": calls})
 		r.Trace = append(r.Trace, logLines(s.log)...)
 		for _, cl := range calls {
-			keys[cl.Kind+"/"+situation(cl)+"/"+cl.Beh] = true
+			k := cl.Kind + "/" + situation(cl) + "/" + cl.Beh
+			if mapSteps[cl.Step] {
+				k += "/map:" + cl.Input
+			}
+			keys[k] = true
 		}
 	}
 	for k := range keys {
 		r.Keys = append(r.Keys, k)
 	}
 	sort.Strings(r.Keys)
+	r.FormTables = formTables()
 	checkRaceLog(r)
 }
 
@@ -1202,7 +1497,8 @@ var bindErr string
 func bindCheck() {
 	in, sg, outs := inScope(), sigScope(), outputs()
 	for v := 0; v < 12; v++ {
-		for cls, n := range names {
+		for _, cls := range structClasses {
+			n := names[cls]
 			u, err := in.Unserialize(rawInput("name", cls, v))
 			if err != nil || u != (stepIn{Name: n}) {
 				bindErr = fmt.Sprintf("input class %s variant %d is not accepted as %q: %v %v", cls, v, n, u, err)
@@ -1241,6 +1537,68 @@ func bindCheck() {
 	}
 }
 
+// the form tables of the map-based scopes must mean what the specification's classes say, judged by
+// the schema alone: accepted classes unserialize to the hand-written normal form, "vd" omits the
+// defaulted property and gets the default, "vl" differs from its normal form, "inv" is rejected
+func bindCheckMap() {
+	for _, field := range []string{"name", "msg"} {
+		for _, cls := range append(append([]string{}, mapClasses...), "inv") {
+			for i, f := range formsOf(cls) {
+				n := names[cls]
+				where := fmt.Sprintf("map-based scope (%s), class %s form %d (%s)", field, cls, i, f.name)
+				raw := f.raw(field, n)
+				u, err := refScope(field).Unserialize(raw)
+				if cls == "inv" {
+					if err == nil {
+						bindErr = where + " is accepted by the schema"
+					}
+					if f.norm != nil {
+						bindErr = where + " has a normal form in the table"
+					}
+					continue
+				}
+				if f.norm == nil {
+					bindErr = where + " has no normal form in the table"
+					continue
+				}
+				norm := f.norm(field, n)
+				if err != nil || !reflect.DeepEqual(u, any(norm)) {
+					bindErr = fmt.Sprintf("%s: Unserialize gives %#v, %v; the table's normal form is %#v", where, u, err, norm)
+					continue
+				}
+				if got, _ := mapArgClass(field, cls, i, norm); got != natives[cls] {
+					bindErr = where + ": the reference does not recognise the normal form"
+				}
+				if got, _ := mapArgClass(field, cls, i, msa{field: n}); cls != "vd" && got != "other" {
+					bindErr = where + ": the reference recognises a value that is not the unserialized one"
+				}
+				rm, isMsa := raw.(msa)
+				_, rawHasCount := rm["count"]
+				switch cls {
+				case "va", "vb":
+					if isMsa && !reflect.DeepEqual(raw, any(norm)) {
+						bindErr = where + " is not in normal representation"
+					}
+				case "vd":
+					if (isMsa && rawHasCount) || norm["count"] != int64(3) {
+						bindErr = where + " does not omit the defaulted property"
+					}
+					if reflect.DeepEqual(raw, any(norm)) {
+						bindErr = where + " equals its unserialized value"
+					}
+				case "vl":
+					if reflect.DeepEqual(raw, any(norm)) {
+						bindErr = where + " is already in normal representation"
+					}
+				}
+			}
+		}
+	}
+	if reflect.TypeOf(msa{}) != mapInScope().ReflectedType() {
+		bindErr = "the map-based input scope does not reflect to map[string]any"
+	}
+}
+
 func handle(raw json.RawMessage) any {
 	var c caseT
 	if err := json.Unmarshal(raw, &c); err != nil {
@@ -1248,7 +1606,12 @@ func handle(raw json.RawMessage) any {
 	}
 	r := &resT{}
 	var bp *sup.PanicInfo
-	bindOnce.Do(func() { bp = sup.Guard(bindCheck) })
+	bindOnce.Do(func() {
+		bp = sup.Guard(bindCheck)
+		if bp == nil {
+			bp = sup.Guard(bindCheckMap)
+		}
+	})
 	if bp != nil {
 		bindErr = "binding self-check panicked: " + bp.Msg + " at " + bp.Frame
 	}
